@@ -107,6 +107,9 @@ func (c *Client) Ping(quit <-chan struct{}) error {
 	case c.pingAck <- done:
 		break // OK
 	default:
+		if c.ctx.Err() != nil {
+			return fmt.Errorf("%w; PING not send", ErrClosed)
+		}
 		return fmt.Errorf("%w; PING unavailable", ErrMax)
 	}
 
